@@ -159,6 +159,7 @@ FaultUniverse ==
   {[op |-> o, t |-> n] : o \in FaultOps \cap {"get", "update", "delete", "terminate"}, n \in Present}
   \cup {[op |-> o, t |-> G] : o \in FaultOps \cap {"set_desired", "list_pods", "list_nodes"}}
   \cup (IF "describe_all" \in FaultOps THEN {[op |-> "describe_asgs", t |-> "all"]} ELSE {})
+  \cup (IF "crash" \in FaultOps THEN {[op |-> "crash", t |-> "#" \o ToString(k)] : k \in 1..3} ELSE {})
 AllFaultSets == {F \in SUBSET FaultUniverse : Cardinality(F) <= MaxFaults}
 
 \* every outcome the specification admits for world W and fault set F
@@ -176,13 +177,14 @@ Touches(r, f) == \E i \in 1..Len(r.calls) : /\ r.calls[i].op = f.op
                                               /\ \/ r.calls[i].n = f.t
                                                  \/ (f.op \in {"set_desired", "list_pods", "list_nodes"} /\ r.calls[i].g = f.t)
                                                  \/ f.op = "describe_asgs"
+                 \/ (f.op = "crash" /\ ~r.crash /\ KthWrite(r.calls, CHOOSE k \in 1..3 : f.t = "#" \o ToString(k)) > 0)
 Relevant(W, F) == {f \in FaultUniverse \ F : \E r \in Outcomes(W, F) : Touches(r, f)}
 RECURSIVE Grow(_, _, _)
 Grow(W, Fs, k) == IF k = 0 THEN Fs ELSE Grow(W, Fs \cup UNION {{F \cup {f} : f \in Relevant(W, F)} : F \in Fs}, k - 1)
 FaultSets == Grow(World, {{}}, MaxFaults)
 
 LineOf(W, F, r) == [ev |-> "scan", src |-> "model", id |-> 0, faults |-> SetToSortedSeq(F), calls |-> r.calls, ret |-> r.ret,
-                    panic |-> FALSE, hang |-> FALSE, exit |-> FALSE, panicMsg |-> "",
+                    panic |-> FALSE, hang |-> FALSE, exit |-> FALSE, crash |-> r.crash, panicMsg |-> "",
                     lookups |-> [g \in {G} |-> <<>>]]
 
 PropViolations(W, F, r) == ViolationsFor(PropIds, LineOf(W, F, r), W, r.W, r)
@@ -194,7 +196,8 @@ RunOnceAct ==
                  <<"PROPERTY VIOLATED ON THE MODEL", PropViolations(World, F, r), "MODELCASE",
                    ToJson([state |-> World, faultsets |-> <<SetToSortedSeq(F)>>])>>)
        /\ LET g2 == r.W.groups[G] IN
-          /\ api' = g2.api /\ asg' = g2.asg /\ pc' = g2.pc /\ ctl' = g2.ctl /\ accepted' = g2.accepted
+          /\ api' = g2.api /\ asg' = g2.asg /\ pc' = g2.pc /\ accepted' = g2.accepted
+          /\ ctl' = IF r.crash THEN ctl ELSE g2.ctl       \* a crashed process has no memory; Restart resets it
           /\ alive' = r.W.alive
        /\ UNCHANGED <<now, pend, run>>      \* pods of a removed node stay until they finish or the Node is collected
 
